@@ -10,16 +10,25 @@ vars == <<l, bad, log, mv>>
 
 Route(a) == RouteLog(log, a)
 
+\* memories 1..4 are instrumented doubles (they report what they received: `seen`); 5 is the library's memory.RAM and
+\* 6 its *memory.ROM over private arrays (observed through the values read and the array bytes a write changed: `landed`);
+\* a ROM ignores writes
+Instr(m) == m \in 1..4
+\* a write of the value the cell already holds changes no array byte
+LandedOK(e, m) == IF MemVal(mv, m, e.a) = e.v THEN e.landed = <<>> ELSE e.landed = << <<m, e.a, e.v>> >>
 Ok(e) ==
   CASE e.k = "attach" -> e.err = ~Aligned(e.s, e.e)
     [] e.k = "read"   -> IF Route(e.a) = Nil THEN e.panic
-                         ELSE ~e.panic /\ e.seen = << <<Route(e.a), e.a>> >> /\ e.v = MemVal(mv, Route(e.a), e.a)
+                         ELSE ~e.panic /\ e.v = MemVal(mv, Route(e.a), e.a)
+                              /\ e.seen = (IF Instr(Route(e.a)) THEN << <<Route(e.a), e.a>> >> ELSE <<>>)
     [] e.k = "write"  -> IF Route(e.a) = Nil THEN e.panic
-                         ELSE ~e.panic /\ e.seen = << <<Route(e.a), e.a, e.v>> >>
+                         ELSE /\ ~e.panic
+                              /\ e.seen = (IF Instr(Route(e.a)) THEN << <<Route(e.a), e.a, e.v>> >> ELSE <<>>)
+                              /\ (IF Route(e.a) = 5 THEN LandedOK(e, 5) ELSE e.landed = <<>>)
     [] e.k = "read24" -> LET a(i) == e.bank * 65536 + ((e.addr + i) % 65536) IN      \* three bytes, wrapping inside the bank
                          IF \E i \in 0..2 : Route(a(i)) = Nil THEN e.panic
                          ELSE /\ ~e.panic
-                              /\ e.seen = [i \in 1..3 |-> <<Route(a(i - 1)), a(i - 1)>>]
+                              /\ e.seen = SelectSeq([i \in 1..3 |-> <<Route(a(i - 1)), a(i - 1)>>], LAMBDA x : Instr(x[1]))
                               /\ e.v = << MemVal(mv, Route(a(0)), a(0)) + 256 * MemVal(mv, Route(a(1)), a(1)), MemVal(mv, Route(a(2)), a(2)) >>
     [] e.k = "dump"   -> ~e.panic /\ e.n = DumpCount(e.s, e.e) /\ e.data = DumpPointwise(Route, mv, e.s, e.e)
     [] OTHER -> TRUE
@@ -33,7 +42,7 @@ Next == /\ l <= Len(Trace)
                        [] e.k = "attach" /\ ~e.err -> Append(log, [m |-> e.m, s |-> e.s, e |-> e.e])
                        [] OTHER -> log
            /\ mv' = CASE e.k = "newbus" -> <<>>
-                      [] e.k = "write" /\ ~e.panic /\ Len(e.seen) = 1 -> MemPut(mv, e.seen[1][1], e.seen[1][2], e.seen[1][3])
+                      [] e.k = "write" /\ Route(e.a) \in 1..5 -> MemPut(mv, Route(e.a), e.a, e.v)      \* (6 = ROM: writes are ignored)
                       [] OTHER -> mv
 Spec == Init /\ [][Next]_vars
 Report == l = Len(Trace) + 1 => \A i \in bad : PrintT(<<"BAD", ToJson([line |-> i, ev |-> Trace[i]])>>)
